@@ -3,11 +3,11 @@
 import ast
 import struct
 
-from ..model import clone, norm, head, walk_no_nested, FuncInfo, ClassInfo, AnalysisError, enclosing_stmt, last_live
+from ..model import clone, norm, head, walk_no_nested, FuncInfo, ClassInfo, AnalysisError, enclosing_stmt, last_live, live, ancestors
 from ..cfg import cfg_of
 from ..resolve import Resolver, Ctx
 from ..symlen import LenEval, Unsupported, show, class_consts, ConstEnv
-from ..q import linear, find, match, const, try_const, cfg_node_for, NotConst
+from ..q import linear, find, match, const, try_const, cfg_node_for, NotConst, calls
 from ..core import key
 
 PDU = 'nfc.llcp.pdu'
@@ -20,7 +20,7 @@ EXPLANATION = (
     'size; R4 pdu_type_map keys equal the ptype literals passed by the constructors; R5 header/sequence/FRMR '
     'bit-field layouts extracted from encode and decode are inverse over the whole field domain; R6 per TLV '
     'type the encoder format and the decoder length test/format agree; R7 no unbounded recursion in the decode '
-    'call graph.  Decides the structural clauses only; decode(encode(p)) == p for payload bytes is not claimed.')
+    'call graph; R8 per PDU class and TLV type the field stored by decode (V + c) and the value handed to Parameter.encode (field - c) are inverse, no one-sided normalisation.  Decides the structural clauses only; decode(encode(p)) == p for payload bytes is not claimed.')
 
 
 def pdu_classes(prog):
@@ -680,6 +680,80 @@ def rule_tlv_limits(report, prog, res):
                      'can carry is refused (or an overlong one is packed)' % (name, first_refused, name, k))
     report.floor('C11-R6 limits', n, 2)
 
+def _affine(expr, var):
+    """expr as var + c (c int, coefficient 1): returns c, else None."""
+    lin = dict(linear(expr))
+    c = lin.pop('1', 0)
+    if lin != {var: 1}:
+        return None
+    return c
+
+
+def rule_field_pairs(report, prog, res):
+    """R8: every PDU type that carries TLV parameters stores the decoded value V of parameter X in a field as V + c and hands
+    exactly field - c to Parameter.encode(X, ...) (c = 0 everywhere but MIUX: miu = 128 + V): any other transformation on one
+    side only (strip, mask, slice, default) makes decode(encode(p)) differ from p for some valid field value."""
+    n = 0
+    for c in pdu_classes(prog):
+        dec, enc = c.methods.get('decode'), c.methods.get('encode')
+        if dec is None or enc is None:
+            continue
+        stores = {}     # parameter name -> (field, offset c, node, list?)
+        for st in walk_no_nested(dec.node):
+            if not isinstance(st, ast.If):
+                continue
+            b = match(st.test, 'T == Parameter.$N')
+            if b is None:
+                continue
+            pname = b['N'] if isinstance(b['N'], str) else norm(b['N'])
+            body = live(st.body)
+            ent = None
+            if len(body) == 1 and isinstance(body[0], ast.Assign) and len(body[0].targets) == 1 and isinstance(body[0].targets[0], ast.Attribute):
+                ent = (body[0].targets[0].attr, _affine(body[0].value, 'V'), body[0], False)
+            elif len(body) == 1 and isinstance(body[0], ast.Expr) and isinstance(body[0].value, ast.Call) \
+                    and isinstance(body[0].value.func, ast.Attribute) and body[0].value.func.attr == 'append' and len(body[0].value.args) == 1:
+                ent = (norm(body[0].value.func.value).split('.')[-1], _affine(body[0].value.args[0], 'V'), body[0], True)
+            else:
+                ent = (None, None, st, False)
+            stores[pname] = ent
+        if not stores:
+            continue
+        for call in calls(enc.node):
+            if norm(call.func) != 'Parameter.encode' or len(call.args) != 2:
+                continue
+            b = match(call.args[0], 'Parameter.$N')
+            if b is None:
+                continue
+            pname = b['N'] if isinstance(b['N'], str) else norm(b['N'])
+            n += 1
+            k = key(c.qname, 'TLV %s: decode stores V + c, encode sends field - c' % pname)
+            if pname not in stores:
+                report.fail('C11-R8', k, enc.loc(call), '%s.encode emits a %s TLV that %s.decode does not store' % (c.name, pname, c.name))
+                continue
+            field, off, node, is_list = stores[pname]
+            if field is None or off is None:
+                report.fail('C11-R8', k, dec.loc(node), '%s.decode does not store the decoded %s value as V (+ constant): `%s`'
+                            % (c.name, pname, norm(node)[:70]))
+                continue
+            arg = call.args[1]
+            if is_list:
+                # for x in self.<field>: ... Parameter.encode(X, x)
+                loop = [l for l in ancestors(call) if isinstance(l, ast.For)]
+                okk = bool(loop) and norm(loop[0].iter) == 'self.' + field and isinstance(arg, ast.Name) and norm(loop[0].target) == arg.id and off == 0
+            else:
+                eo = _affine(arg, 'self.' + field)
+                okk = eo is not None and eo == -off
+            report.check(okk, 'C11-R8', k, enc.loc(call),
+                         '%s: decode stores %s as `%s` but encode sends `%s`: the two are not inverse, so a decoded PDU does not keep the '
+                         'field value of the PDU that was encoded' % (c.name, pname, norm(node)[:60], norm(arg)))
+        for pname, (field, off, node, is_list) in sorted(stores.items()):
+            if not any(norm(cl.func) == 'Parameter.encode' and norm(cl.args[0]) == 'Parameter.' + pname for cl in calls(enc.node)):
+                n += 1
+                report.fail('C11-R8', key(c.qname, 'TLV %s stored by decode is emitted by encode' % pname), dec.loc(node),
+                            '%s.decode stores a %s TLV that %s.encode never emits' % (c.name, pname, c.name))
+    report.floor('C11-R8', n, 14)
+
+
 def rule_recursion(report, prog, res, rule='C11-R7'):
     """Call-graph cycles inside the decode cone must carry a tested depth parameter."""
     edges = {}
@@ -762,6 +836,7 @@ def run(report, prog, tier):
     rule_bitfields(report, prog, res)
     rule_tlv(report, prog, res)
     rule_tlv_limits(report, prog, res)
+    rule_field_pairs(report, prog, res)
     rule_recursion(report, prog, res)
     report.trusted += ['struct.calcsize / struct.pack semantics of the checker interpreter',
                        'induction: len(x.encode()) == len(x) for aggregated sub-PDUs (each class is itself an R1 obligation)']
@@ -769,6 +844,9 @@ def run(report, prog, tier):
 
 
 MUTANTS = [
+    ('connect-sn-normalised-on-decode', PDU, "                connect_pdu.sn = V\n", "                connect_pdu.sn = V.rstrip(b'\\0')\n", 'C11-R8'),
+    ('dps-rn-truncated-on-encode', PDU, "data += Parameter.encode(Parameter.RN, self.rn)", "data += Parameter.encode(Parameter.RN, self.rn[:8])", 'C11-R8'),
+    ('cc-miu-offset-one-sided', PDU, "                cc_pdu.miu = 128 + V", "                cc_pdu.miu = 127 + V", 'C11-R8'),
     # R1 __len__ vs encode
     ('dm-len-constant', PDU, """    def __len__(self):
         return 3
